@@ -1,6 +1,7 @@
 package props
 
 import (
+	"strings"
 	"fmt"
 	"go/constant"
 	"go/token"
@@ -25,6 +26,7 @@ func runC41(c *an.Ctx) {
 	if !controlGuard(c) {
 		return
 	}
+	normalizedRoleFuncs(c)
 	vt := mustFunc(c, authPkg+".verifyToken")
 	verifySig := mustFunc(c, authPkg+".verifySig")
 	contains := mustObj(c, authPkg+".(*roleFuncs).ContainsFunc")
@@ -235,4 +237,38 @@ func baseOfField(v ssa.Value, field string) ssa.Value {
 		}
 	}
 	return nil
+}
+
+// normalizedRoleFuncs: roleFuncs.Serialization writes the element count before
+// it de-duplicates, so the stored record is only readable if the list is
+// already normalised; every assignment of roleFuncs.funcNames must therefore be
+// a StringsDedupAndSort result. A record that cannot be decoded makes
+// verifyToken fail for every holder of the role.
+func normalizedRoleFuncs(c *an.Ctx) {
+	field := c.P.Field("smartcontract/service/native/auth.roleFuncs.funcNames")
+	if field == nil {
+		c.Undecide("anchor|roleFuncs.funcNames", "anchors must resolve", "-", "field not found")
+		return
+	}
+	n := 0
+	for _, fn := range c.P.RepoSrcFuncs("smartcontract/service/native/auth") {
+		if strings.HasSuffix(c.P.Fset.Position(fn.Pos()).Filename, "_test.go") {
+			continue
+		}
+		idx := 0
+		for _, w := range an.DirectFieldWrites(fn) {
+			if w.Field != field || w.Kind != "store" {
+				continue
+			}
+			n++
+			idx++
+			ok := false
+			if k, isC := an.Origin(w.Val).(*ssa.Call); isC && k.Call.StaticCallee() != nil && k.Call.StaticCallee().Name() == "StringsDedupAndSort" {
+				ok = true
+			}
+			c.Check(ok, fmt.Sprintf("normalized|roleFuncs.funcNames|%s#%d", an.FuncName(fn), idx), "a role's function list is only ever assigned a de-duplicated, sorted list (Serialization writes the count before normalising: an un-normalised list produces a record that no longer decodes)", c.P.Rel(w.In.Pos()),
+				"funcNames assigned a value that is not a StringsDedupAndSort result")
+		}
+	}
+	c.RequireMin("assignments of roleFuncs.funcNames", n, 3)
 }
